@@ -162,6 +162,14 @@ func (t *ProcessorTask) markBatchRecords(b *Batch, from int, records []sdk.Proce
 		errs := make([]error, len(records))
 		for i, rec := range records {
 			errs[i] = rec.(sdk.ErrorRecord).Error
+			if errs[i] == nil {
+				// An error record without an error (e.g. a standalone
+				// processor that left the error unset) still means the
+				// processor failed the record. Everything downstream of a
+				// nack (DLQ record, nack threshold error) relies on the
+				// error being set, so give it one.
+				errs[i] = cerrors.New("processor returned an error record without an error")
+			}
 		}
 		b.Nack(from, errs...)
 	case sdk.MultiRecord:
